@@ -7,6 +7,7 @@ import (
 	"os"
 	"path/filepath"
 	"sort"
+	"strconv"
 	"strings"
 )
 
@@ -101,7 +102,7 @@ func analyse(x *Exec) *RunResult {
 		for _, s := range x.kq.snaps {
 			switch s.Label {
 			case "removed":
-				cause := leakCause(x, append(append([]string(nil), s.VnodePaths...), s.MapKeys...), s.VnodePaths)
+				cause := leakCause(x, append(append([]string(nil), s.VnodePaths...), s.MapKeys...), s.VnodePaths, s.KeyTabs)
 				if s.Vnode != 0 {
 					add(Violation{Kind: "kq-fd-leak", Watcher: -1, Site: "after-remove-all" + cause, Detail: fmt.Sprintf("after every listed path was removed %d watch descriptors are still open: %v", s.Vnode, trimRoot(x, s.VnodePaths))})
 				}
@@ -114,7 +115,7 @@ func analyse(x *Exec) *RunResult {
 				cnt["removed_state_checks"]++
 			case "closed":
 				if s.Vnode != 0 || s.Kq != 0 || s.Pipe != 0 {
-					add(Violation{Kind: "kq-fd-leak", Watcher: -1, Site: "after-close" + leakCause(x, s.VnodePaths, s.VnodePaths), Detail: fmt.Sprintf("after Close and quiescence the Watcher still holds descriptors: %d kqueue, %d pipe ends, %d watch descriptors %v", s.Kq, s.Pipe, s.Vnode, trimRoot(x, s.VnodePaths))})
+					add(Violation{Kind: "kq-fd-leak", Watcher: -1, Site: "after-close" + leakCause(x, s.VnodePaths, s.VnodePaths, s.KeyTabs), Detail: fmt.Sprintf("after Close and quiescence the Watcher still holds descriptors: %d kqueue, %d pipe ends, %d watch descriptors %v", s.Kq, s.Pipe, s.Vnode, trimRoot(x, s.VnodePaths))})
 				}
 				cnt["closed_state_checks"]++
 			}
@@ -167,8 +168,8 @@ func analyse(x *Exec) *RunResult {
 // leakCause classifies what is left behind, so that distinct defects have
 // distinct signatures: watches the user added through a symbolic link (which
 // Remove cannot find again); leftovers of an Add that failed half-way.
-func leakCause(x *Exec, left []string, vnodes []string) string {
-	viaLink, failed, other, empty, unread, rewatched, stale, closing, removing := false, false, false, false, false, false, false, false, false
+func leakCause(x *Exec, left []string, vnodes []string, tabs map[string][]string) string {
+	viaLink, failed, other, empty, unread, rewatched, stale, closing, removing, reused, deadMark := false, false, false, false, false, false, false, false, false, false, false
 	// user directories whose path was renamed away / removed and re-created during the run
 	rebound := map[string]bool{}
 	gone := map[string]bool{}
@@ -183,12 +184,6 @@ func leakCause(x *Exec, left []string, vnodes []string) string {
 			if gone[w.Op.P] {
 				rebound[w.Op.P] = true
 			}
-		}
-	}
-	closeInv := -1
-	for _, c := range x.H {
-		if c.Kind == OpClose && c.Phase == "body" && closeInv < 0 {
-			closeInv = c.Inv
 		}
 	}
 	openedAt := map[string]int{}
@@ -267,7 +262,7 @@ func leakCause(x *Exec, left []string, vnodes []string) string {
 			}
 		}
 		raw := left[ri]
-		st, opened := openedAt[raw]
+		_, opened := openedAt[raw]
 		switch {
 		case a:
 			viaLink = true
@@ -277,15 +272,19 @@ func leakCause(x *Exec, left []string, vnodes []string) string {
 			stale = true
 		case len(openers[raw]) >= 2 && hasFD[raw]:
 			dup = true
-		case closeInv >= 0 && opened && st >= closeInv-40:
+		case opened && setUpWhileClosing(x, raw):
 			closing = true
-		case opened && removedWhileSetUp(x, rel, st):
+		case opened && setUpWhileRemoving(x, raw):
 			removing = true
+		case orphanedByStaleKevent(x, raw):
+			reused = true
 		case userFile && removedEv[rel]:
 			rewatched = true
 		case derived:
-		case denied[raw] || !opened || !hasFD[raw]:
-			// an entry that was never opened: it can only be a "seen" mark
+		case !hasFD[raw] && len(tabs[raw]) > 0 && onlyIn(tabs[raw], "byUser") && removedDuringAdd(x, raw):
+			deadMark = true
+		case (denied[raw] || !opened || !hasFD[raw]) && onlyIn(tabs[raw], "seen"):
+			// an entry that is not watched and is held by the seen table only
 			unread = true
 		default:
 			other = true
@@ -302,8 +301,12 @@ func leakCause(x *Exec, left []string, vnodes []string) string {
 		return ":watch-set-up-while-closing"
 	case removing && !viaLink && !failed:
 		return ":watch-set-up-while-removing-its-directory"
+	case reused && !viaLink && !failed:
+		return ":stale-kevent-for-reused-descriptor"
 	case rewatched && !viaLink && !failed:
 		return ":user-file-rewatched-after-overwrite"
+	case deadMark && !viaLink && !failed:
+		return ":user-mark-of-watch-removed-during-Add"
 	case unread && !viaLink && !failed:
 		return ":seen-mark-of-unwatched-entry"
 	case empty && !viaLink && !failed:
@@ -320,17 +323,201 @@ func leakCause(x *Exec, left []string, vnodes []string) string {
 
 func p0(left []string, rel string) string { return rel }
 
-// removedWhileSetUp: the entry's descriptor was opened while a Remove of its
-// directory was running (or just before it was invoked).
-func removedWhileSetUp(x *Exec, rel string, openedAt int) bool {
+// removedDuringAdd: the watch of path was closed by another task (the reader,
+// after a delete or rename; a Remove()) while the Add() that created it was
+// still running, i.e. before Add() got to mark the path as added by the user.
+func removedDuringAdd(x *Exec, path string) bool {
 	for _, c := range x.H {
-		if c.Kind != OpRemove || c.Class != "" {
+		if c.Kind != OpAdd || c.Class != "" || cleanPath(c.Path) != path {
 			continue
 		}
-		dir := strings.TrimPrefix(cleanPath(c.Path), x.root+"/")
-		// (the reader may finish the directory scan it had begun before the Remove long after the Remove returned)
-		if strings.HasPrefix(rel, dir+"/") && openedAt >= c.Inv-40 {
-			return true
+		for _, k := range x.kq.kern.Calls {
+			if k.Kind != "close" || k.Task == c.TaskID || cleanPath(k.Path) != path || k.Step < c.Inv {
+				continue
+			}
+			// the remover takes the watch out of the tables (its last exclusive
+			// table lock before the close) and closes the descriptor afterwards
+			claim := -1
+			for _, l := range x.S.LockLog {
+				if l.Excl && l.Task == k.Task && l.Step < k.Step {
+					claim = l.Step
+				}
+			}
+			if claim >= c.Inv && (c.Ret < 0 || claim <= c.Ret) {
+				return true
+			}
+		}
+	}
+	return false
+}
+
+func onlyIn(tabs []string, name string) bool {
+	for _, t := range tabs {
+		if t != name {
+			return false
+		}
+	}
+	return true
+}
+
+// setUp describes how the (last) watch on path came about: who opened it,
+// when, and when its table entry was made (the opener's first exclusive table
+// lock after registering the descriptor with the kqueue).
+type setUp struct {
+	task           int
+	open, reg, ins int // steps; ins = 1<<30 if the entry was never made
+	trigger        int // reader: step of the kevent retrieval whose batch it was handling; API task: invocation of the call
+	api            *APICall
+}
+
+func setUpsOf(x *Exec, path string) []setUp {
+	var out []setUp
+	for _, o := range x.kq.kern.Calls {
+		if o.Kind != "open" || o.Errno != 0 || cleanPath(o.Path) != path {
+			continue
+		}
+		su := setUp{task: o.Task, open: o.Step, reg: o.Step, ins: 1 << 30, trigger: -1}
+		for _, c := range x.kq.kern.Calls {
+			if c.Kind == "kevent.add" && c.Task == su.task && c.FD == o.FD && c.Step >= su.open {
+				su.reg = c.Step
+				break
+			}
+		}
+		for _, l := range x.S.LockLog {
+			if l.Excl && l.Task == su.task && l.Step > su.reg {
+				su.ins = l.Step
+				break
+			}
+		}
+		// a set-up that was abandoned (descriptor closed again by the same task
+		// before any table update) never became a watch
+		abandoned := false
+		for _, c := range x.kq.kern.Calls {
+			if c.Kind == "close" && c.Task == su.task && c.FD == o.FD && c.Step > su.reg && c.Step < su.ins {
+				abandoned = true
+			}
+		}
+		if abandoned {
+			continue
+		}
+		for _, c := range x.H {
+			if c.TaskID == su.task && c.Inv <= su.open && (c.Ret < 0 || c.Ret >= su.open) {
+				su.api = c
+				su.trigger = c.Inv
+			}
+		}
+		if su.api == nil {
+			for _, c := range x.kq.kern.Calls {
+				if c.Kind == "kevent.read" && c.Task == su.task && c.Step <= su.open {
+					su.trigger = c.Step
+				}
+			}
+		}
+		out = append(out, su)
+	}
+	return out
+}
+
+// orphanedByStaleKevent: the reader removed the watch of the entry's directory
+// (or of the entry itself) on account of a kevent it had retrieved for that
+// descriptor NUMBER before the descriptor was opened: the number had belonged
+// to another watch at retrieval time, was closed by a Remove() and handed out
+// again by an Add() while the batch was being worked through.
+func orphanedByStaleKevent(x *Exec, path string) bool {
+	calls := x.kq.kern.Calls
+	for i, c := range calls {
+		if c.Kind != "close" || c.Path == "" {
+			continue
+		}
+		d := cleanPath(c.Path)
+		if d != path && !strings.HasPrefix(path, d+"/") {
+			continue
+		}
+		// the closer's last retrieval before the close, and whether it carried this number
+		read := -1
+		has := false
+		for j := i - 1; j >= 0; j-- {
+			if calls[j].Kind == "kevent.read" && calls[j].Task == c.Task {
+				read = calls[j].Step
+				has = strings.Contains(","+calls[j].Path, ","+strconv.Itoa(c.FD)+",")
+				break
+			}
+		}
+		if read < 0 || !has {
+			continue
+		}
+		// when was the descriptor that is being closed opened?
+		for j := i - 1; j >= 0; j-- {
+			if calls[j].Kind == "open" && calls[j].Errno == 0 && calls[j].FD == c.FD {
+				if calls[j].Step > read {
+					return true
+				}
+				break
+			}
+		}
+	}
+	return false
+}
+
+// setUpWhileClosing: the entry was made after Close() had listed the paths it
+// is going to remove (its first shared table lock), by another task. (A set-up
+// cannot begin after Close has marked the Watcher closed: addWatch refuses.)
+func setUpWhileClosing(x *Exec, path string) bool {
+	for _, su := range setUpsOf(x, path) {
+		for _, c := range x.H {
+			if c.Kind != OpClose || c.Phase != "body" || c.TaskID == su.task {
+				continue
+			}
+			for _, l := range x.S.LockLog {
+				if !l.Excl && l.Task == c.TaskID && l.Step > c.Inv && (c.Ret < 0 || l.Step <= c.Ret) {
+					if su.ins > l.Step {
+						return true
+					}
+					break
+				}
+			}
+		}
+	}
+	return false
+}
+
+// setUpWhileRemoving: the watch of the entry's directory was closed by another
+// task (Remove(), or the reader after the directory was deleted / renamed)
+// before the entry was made, although the set-up had been triggered before
+// that (the Add was already running; the reader had already fetched the batch).
+func setUpWhileRemoving(x *Exec, path string) bool {
+	// (any watch the path ever had: once such an orphan exists, the "was it
+	// overwritten?" logic of readEvents re-creates it after every delete of the entry)
+	for _, su := range setUpsOf(x, path) {
+		if su.trigger < 0 {
+			continue
+		}
+		for _, c := range x.kq.kern.Calls {
+			if c.Kind != "close" || c.Task == su.task || c.Path == "" {
+				continue
+			}
+			d := cleanPath(c.Path)
+			if !strings.HasPrefix(path, d+"/") {
+				continue
+			}
+			if su.trigger < c.Step && su.ins > c.Step {
+				return true
+			}
+		}
+		// Remove(dir) is not atomic either: it closes the directory, lists its
+		// entries and removes them one by one; a set-up that overlaps the call
+		// (the reader handling an event of an entry that Remove has not got to yet) is missed
+		for _, c := range x.H {
+			if c.Kind != OpRemove || c.TaskID == su.task {
+				continue
+			}
+			d := cleanPath(c.Path)
+			if !strings.HasPrefix(path, d+"/") {
+				continue
+			}
+			if su.trigger <= c.Ret && su.ins >= c.Inv {
+				return true
+			}
 		}
 	}
 	return false
@@ -387,6 +574,17 @@ func checkKqDir(x *Exec) []Violation {
 	for _, c := range x.H {
 		if c.Kind == OpAdd && c.Class == "" && c.Phase == "setup" && c.Real != "" {
 			dirs = append(dirs, wdir{filepath.Clean(c.Path), c.Real})
+		}
+	}
+	// a directory the history removes again (always its first step) is not a watched directory of the history
+	for _, c := range x.H {
+		if c.Kind == OpRemove && c.Class == "" && c.Phase == "body" {
+			for i := 0; i < len(dirs); i++ {
+				if dirs[i].spelling == filepath.Clean(c.Path) {
+					dirs = append(dirs[:i], dirs[i+1:]...)
+					i--
+				}
+			}
 		}
 	}
 	// NOTE: EvalSymlinks runs after the history; the generator never moves the
@@ -456,6 +654,18 @@ func checkKqDir(x *Exec) []Violation {
 				expect("CREATE", abs(w.Op.P2))
 			}
 		}
+		// "a name that is removed and created again is reported as Remove followed by Create"
+		for gi, g := range got {
+			if strings.HasPrefix(g, "CREATE ") {
+				for _, h := range got[gi+1:] {
+					if h == "REMOVE "+g[len("CREATE "):] && w.Op.K == OpRename && w.PreExisted {
+						out = append(out, Violation{Kind: "kq-event-order", Watcher: 0, Site: w.Op.K,
+							Detail: fmt.Sprintf("after %s %s %s (step %d, the target existed): delivered %v - the Create of the new entry precedes the Remove of the entry it replaced", w.Op.K, w.Op.P, w.Op.P2, w.Step, trimAll(x, got))})
+						return out
+					}
+				}
+			}
+		}
 		sort.Strings(got)
 		sort.Strings(want)
 		if strings.Join(got, "\n") != strings.Join(want, "\n") {
@@ -512,6 +722,17 @@ func checkKqDirBurst(x *Exec) []Violation {
 	for _, c := range x.H {
 		if c.Kind == OpAdd && c.Class == "" && c.Phase == "setup" && c.Real != "" {
 			dirs = append(dirs, wdir{filepath.Clean(c.Path), c.Real})
+		}
+	}
+	// a directory the history removes again (always its first step) is not a watched directory of the history
+	for _, c := range x.H {
+		if c.Kind == OpRemove && c.Class == "" && c.Phase == "body" {
+			for i := 0; i < len(dirs); i++ {
+				if dirs[i].spelling == filepath.Clean(c.Path) {
+					dirs = append(dirs[:i], dirs[i+1:]...)
+					i--
+				}
+			}
 		}
 	}
 	spell := func(real string) (string, bool) {
